@@ -40,6 +40,13 @@ not bytes, or the exchange failing); the symbolic run compares the decision with
 `checkM4`; the property's oracle itself only speaks about M2, so for M4 variants it requires
 the keys<=>success consistency and records the outcome (`real-m4:*`).
 
+User-level path (run_user): the same oracle through real pyatv.connect() on multi-service
+configurations — the layers between the protocol object and the user's connect() (protocol
+setup()._connect, facade.connect, pyatv.connect) must not swallow a failed verification.  The
+pinned code propagates it, so: one protocol's accessory forged => pyatv.connect() raises
+(AuthenticationError for MRP/Companion; for the AirPlay tunnel the ProtocolError its wrapper always
+raises) and that protocol's connection has no keys; all honest => connect() returns with working keys.
+
 DECISION on AirPlay's exception class (documented in meta/C06.json too): the property says a
 rejected reply "makes connecting fail with an authentication error".  `verify_connection`
 has no error mapping: AuthenticationError is raised for a wrong identifier / signature, but
@@ -69,7 +76,9 @@ RULE = ("symbolic run: structured replies (each TLV field of M2 present/absent/d
         "with the earlier ones; later reply honest / signed by the earlier key / earlier identity / replayed bytes); "
         "the fake accessories are full peers (pair-setup M1-M6 incl. transient, /pair-pin-start, any other "
         "endpoint or frame is answered) so that any fallback after a rejected verify is reachable; "
-        "distinct = (mode, transport, variant descriptor, session history)")
+        "user-level run: real pyatv.connect() on multi-service configurations (MRP+Companion, AirPlay+Companion, "
+        "AirPlay tunnel+MRP ...), fake transports for every protocol, one protocol's accessory forged, others honest; "
+        "distinct = (mode, transport or configuration+forged protocol, variant descriptor, session history)")
 ASSUMPTIONS = [
     "HAP credentials are present (service.credentials set): without credentials no pair-verify runs and no keys exist",
     "replies carry fewer than ~400 TLV items (CPython recursion limit inside read_tlv is not modelled)",
@@ -830,6 +839,7 @@ class Case:
         self.sent_pd = None
         self.setup = SetupPeer(self)
         self.other_traffic = []    # what the client sent besides pair-verify M1/M3
+        self.has_credentials = True
 
     def claimed_identity(self):
         """(long-term secret, identifier) of whoever the reply of this variant claims to be"""
@@ -865,33 +875,20 @@ class Case:
         return cr.hkdf(salt, cw, shared), cr.hkdf(salt, cread, shared)
 
 
-async def attempt_mrp(case, loop):
+def mrp_accessory(case, loop, holder):
+    """The accessory end of an MRP connection; `holder["conn"]` is the client's MrpConnection.
+    Returns the transport's write callback."""
     from pyatv.protocols.mrp import messages, protobuf
-    from pyatv.protocols.mrp import protocol as mrp_protocol
-    from pyatv.protocols.mrp.connection import MrpConnection
-    from pyatv.auth.hap_srp import SRPAuthHandler
-    from pyatv.settings import InfoSettings
 
     real = case.mode == "real"
     state = {"buf": b"", "enc": None, "cnt_in": 0, "cnt_out": 0}
-
-    class Conn(MrpConnection):
-        async def connect(self):
-            self.connection_made(FakeTransport(on_write))
-
-        def enable_encryption(self, output_key, input_key):
-            case.enabled(output_key, input_key)
-            if real:
-                super().enable_encryption(output_key, input_key)
-
-    conn = Conn("127.0.0.1", 49152, loop)
 
     def deliver(msg):
         data = msg.SerializeToString()
         if state["enc"] is not None:
             data = case.w.crypto.seal(state["enc"][1], state["cnt_out"].to_bytes(8, "little"), data)
             state["cnt_out"] += 1
-        loop.call_soon(conn.data_received, _varint(len(data)) + data)
+        loop.call_soon(holder["conn"].data_received, _varint(len(data)) + data)
 
     def on_message(data):
         msg = protobuf.ProtocolMessage()
@@ -939,7 +936,7 @@ async def attempt_mrp(case, loop):
                     if real and case.m4 in M4_ACK:
                         state["enc"] = case.accessory_keys()
         elif msg.identifier:
-            if not case.obs.enabled:
+            if not case.obs.enabled and case.has_credentials:
                 case.other("message type %d" % msg.type)
             deliver(messages.create(msg.type, identifier=msg.identifier))
 
@@ -954,6 +951,29 @@ async def attempt_mrp(case, loop):
                 on_message(rest[:n])
             except Exception as ex:  # the accessory never crashes the run
                 case.log.add("accessory-error:" + type(ex).__name__)
+
+    return on_write
+
+
+async def attempt_mrp(case, loop):
+    from pyatv.auth.hap_srp import SRPAuthHandler
+    from pyatv.protocols.mrp import protocol as mrp_protocol
+    from pyatv.protocols.mrp.connection import MrpConnection
+    from pyatv.settings import InfoSettings
+
+    real = case.mode == "real"
+    holder = {}
+
+    class Conn(MrpConnection):
+        async def connect(self):
+            self.connection_made(FakeTransport(mrp_accessory(case, loop, holder)))
+
+        def enable_encryption(self, output_key, input_key):
+            case.enabled(output_key, input_key)
+            if real:
+                super().enable_encryption(output_key, input_key)
+
+    conn = holder["conn"] = Conn("127.0.0.1", 49152, loop)
 
     class Service:
         credentials = case.w.credentials_string()
@@ -970,29 +990,22 @@ async def attempt_mrp(case, loop):
     prot.stop()
 
 
-async def attempt_companion(case, loop):
-    from pyatv.auth.hap_srp import SRPAuthHandler
-    from pyatv.protocols.companion import protocol as companion_protocol
-    from pyatv.protocols.companion.connection import CompanionConnection, FrameType
+def companion_accessory(case, loop, holder):
+    """The accessory end of a Companion connection (auth frames in the clear; after an
+    acknowledged pair-verify, real mode: OPACK frames under the accessory's own keys)."""
+    from pyatv.protocols.companion.connection import FrameType
     from pyatv.support import opack
 
     real = case.mode == "real"
-    state = {"buf": b""}
-
-    class Conn(CompanionConnection):
-        async def connect(self):
-            self.connection_made(FakeTransport(on_write))
-
-        def enable_encryption(self, output_key, input_key):
-            case.enabled(output_key, input_key)
-            if real:
-                super().enable_encryption(output_key, input_key)
-
-    conn = Conn(loop, "127.0.0.1", 49153)
+    state = {"buf": b"", "enc": None, "cnt_in": 0, "cnt_out": 0}
 
     def deliver(frame_type, obj):
         payload = opack.pack(obj)
-        loop.call_soon(conn.data_received, bytes([frame_type.value]) + len(payload).to_bytes(3, "big") + payload)
+        if state["enc"] is not None and payload:
+            header = bytes([frame_type.value]) + (len(payload) + 16).to_bytes(3, "big")
+            payload = case.w.crypto.seal(state["enc"][1], state["cnt_out"].to_bytes(12, "little"), payload, aad=header)
+            state["cnt_out"] += 1
+        loop.call_soon(holder["conn"].data_received, bytes([frame_type.value]) + len(payload).to_bytes(3, "big") + payload)
 
     def on_frame(ftype, payload):
         obj, _ = opack.unpack(payload)
@@ -1002,9 +1015,10 @@ async def attempt_companion(case, loop):
             case.other("pair-setup M%d" % (seq[0] if seq else 0))
             deliver(FrameType.PS_Next, {"_pd": case.setup.handle(t)})
         elif ftype not in (FrameType.PV_Start.value, FrameType.PV_Next.value):
-            case.other("frame type %d" % ftype)
-            if isinstance(obj, dict) and "_x" in obj:
-                deliver(FrameType(ftype), {"_t": 3, "_x": obj["_x"], "_c": {}})
+            if not case.obs.enabled:
+                case.other("frame type %d" % ftype)
+            if isinstance(obj, dict) and obj.get("_t") == 2 and "_x" in obj:
+                deliver(FrameType(ftype), {"_t": 3, "_x": obj["_x"], "_c": {"_sid": 1, "state": 3}})
         elif ftype == FrameType.PV_Start.value and seq == b"\x01":
             kind, pd = case.m2(t.get(TAG_PUB, b""))
             if kind == "bytes":
@@ -1023,6 +1037,8 @@ async def attempt_companion(case, loop):
                     deliver(FrameType.PV_Next, {"_x": 2})
                 else:
                     deliver(FrameType.PV_Next, {"_pd": "not bytes"})
+                if real and case.m4 in M4_ACK:
+                    state["enc"] = case.accessory_keys()
             elif case.m4 == "protocol":
                 deliver(FrameType.PV_Next, {"_em": "verif: accessory refuses"})
 
@@ -1032,12 +1048,43 @@ async def attempt_companion(case, loop):
             n = int.from_bytes(state["buf"][1:4], "big")
             if len(state["buf"]) < 4 + n:
                 return
-            ftype, payload = state["buf"][0], state["buf"][4:4 + n]
+            header, ftype, payload = state["buf"][:4], state["buf"][0], state["buf"][4:4 + n]
             state["buf"] = state["buf"][4 + n:]
             try:
+                if state["enc"] is not None and payload:
+                    plain = case.w.crypto.open(state["enc"][0], state["cnt_in"].to_bytes(12, "little"), payload, aad=header)
+                    if plain is None:
+                        case.obs.acc_decrypt = False
+                        continue
+                    state["cnt_in"] += 1
+                    case.obs.acc_decrypt = True
+                    payload = plain
                 on_frame(ftype, payload)
             except Exception as ex:
                 case.log.add("accessory-error:" + type(ex).__name__)
+
+    return on_write
+
+
+async def attempt_companion(case, loop):
+    from pyatv.auth.hap_srp import SRPAuthHandler
+    from pyatv.protocols.companion import protocol as companion_protocol
+    from pyatv.protocols.companion.connection import CompanionConnection, FrameType
+    from pyatv.support import opack
+
+    real = case.mode == "real"
+    holder = {}
+
+    class Conn(CompanionConnection):
+        async def connect(self):
+            self.connection_made(FakeTransport(companion_accessory(case, loop, holder)))
+
+        def enable_encryption(self, output_key, input_key):
+            case.enabled(output_key, input_key)
+            if real:
+                super().enable_encryption(output_key, input_key)
+
+    conn = holder["conn"] = Conn(loop, "127.0.0.1", 49153)
 
     class Service:
         credentials = case.w.credentials_string()
@@ -1053,29 +1100,17 @@ async def attempt_companion(case, loop):
     case.obs.keys_after = conn._chacha is not None  # noqa
     if real and case.obs.exc is None and conn._chacha is not None:
         # non-vacuity: what the client now sends must be readable with the accessory's keys
-        state["buf"] = b""
-        seen = []
-        conn.transport.on_write = seen.append
         conn.send(FrameType.E_OPACK, opack.pack({"_i": "verif", "_t": 1, "_c": {}, "_x": 7}))
-        if seen:
-            frame = seen[0]
-            plain = case.w.crypto.open(case.accessory_keys()[0], (0).to_bytes(12, "little"), frame[4:], aad=frame[:4])
-            case.obs.acc_decrypt = plain is not None
     prot.stop()
 
 
-async def attempt_airplay(case, loop):
-    from pyatv.auth.hap_pairing import parse_credentials
-    from pyatv.protocols.airplay import auth as airplay_auth
-    from pyatv.support import http
-
+def airplay_accessory(case, loop, holder):
+    """The accessory end of an AirPlay control connection (HTTP)."""
     state = {"buf": b""}
-    conn = http.HttpConnection()
-    null_send, null_recv = conn.send_processor, conn.receive_processor
 
     def respond(code, body, ctype="application/octet-stream"):
         head = f"HTTP/1.1 {code} {'OK' if code == 200 else 'Error'}\r\nContent-Length: {len(body)}\r\nContent-Type: {ctype}\r\n\r\n"
-        loop.call_soon(conn.data_received, head.encode() + body)
+        loop.call_soon(holder["conn"].data_received, head.encode() + body)
 
     def on_request(path, body):
         t = tlv_parse(body) or {}
@@ -1126,7 +1161,18 @@ async def attempt_airplay(case, loop):
             except Exception as ex:
                 case.log.add("accessory-error:" + type(ex).__name__)
 
-    conn.connection_made(FakeTransport(on_write))
+    return on_write
+
+
+async def attempt_airplay(case, loop):
+    from pyatv.auth.hap_pairing import parse_credentials
+    from pyatv.protocols.airplay import auth as airplay_auth
+    from pyatv.support import http
+
+    holder = {}
+    conn = holder["conn"] = http.HttpConnection()
+    null_send, null_recv = conn.send_processor, conn.receive_processor
+    conn.connection_made(FakeTransport(airplay_accessory(case, loop, holder)))
     creds = parse_credentials(case.w.credentials_string())
     if case.mode == "sym":
         SpyBytes.log = case.log
@@ -1146,6 +1192,97 @@ async def attempt_airplay(case, loop):
             plain = case.w.crypto.open(case.accessory_keys()[0], (0).to_bytes(8, "little"), blk[2:], aad=blk[:2])
             case.obs.acc_decrypt = plain is not None
     conn.close()
+
+
+# ----------------------------------------------------------------------------------------
+# the user-level path: real pyatv.connect() on a multi-service configuration
+# ----------------------------------------------------------------------------------------
+USER_CONFIGS = {
+    # name: services as (protocol, stores HAP credentials, AirPlay remote-control tunnel)
+    "mrp+companion": [("mrp", True), ("companion", True)],
+    "mrp(nocreds)+companion": [("mrp", False), ("companion", True)],
+    "airplay(plain)+companion": [("airplay", False), ("companion", True)],
+    "airplay(tunnel)+companion": [("airplay", True), ("companion", True)],
+    "airplay(tunnel)+mrp(nocreds)": [("airplay", True), ("mrp", False)],
+}
+# (config, protocol whose accessory presents the forged reply)
+USER_SLOTS = [
+    ("mrp+companion", "mrp"), ("mrp+companion", "companion"), ("mrp(nocreds)+companion", "companion"),
+    ("airplay(plain)+companion", "companion"), ("airplay(tunnel)+companion", "airplay"),
+    ("airplay(tunnel)+mrp(nocreds)", "airplay"),
+]
+USER_HONEST = ["mrp+companion", "mrp(nocreds)+companion", "airplay(plain)+companion"]
+
+
+class UserCase:
+    """One pyatv.connect(): a Case per protocol (all for the same accessory/world)."""
+
+    def __init__(self, w, config, forged, variant):
+        self.w, self.config, self.forged, self.v = w, config, forged, variant
+        self.cases = {}
+        for proto, creds in USER_CONFIGS[config]:
+            c = Case(w, variant if proto == forged else {}, "real", proto)
+            c.has_credentials = creds
+            self.cases[proto] = c
+        self.urandom_queue = [w.client_ed_seed, w.client_x]
+        self.log = Log()
+        self.conns = {}
+        self.exc = None
+        self.exc_chain = []
+        self.connected = False
+
+    def enabled(self, out_key, in_key):  # HAPSession.enable (AirPlay)
+        if "airplay" in self.cases:
+            self.cases["airplay"].enabled(out_key, in_key)
+
+    def keys_after(self, proto):
+        conn = self.conns.get(proto)
+        if conn is None:
+            return False
+        if proto == "airplay":
+            return conn.send_processor is not self.null_processors[0] or conn.receive_processor is not self.null_processors[1]
+        return conn._chacha is not None  # noqa
+
+    def summary(self):
+        return {"exc": self.exc, "chain": self.exc_chain,
+                "per_protocol": {p: {"enable_calls": len(c.obs.enabled), "keys_after": self.keys_after(p),
+                                     "pair_verify_started": c.sent_pd is not None,
+                                     "accessory_could_decrypt": c.obs.acc_decrypt,
+                                     "client_traffic_besides_pair_verify": c.other_traffic}
+                                 for p, c in self.cases.items()}}
+
+
+async def attempt_user(u, loop):
+    import ipaddress
+
+    import pyatv
+    from pyatv.conf import AppleTV, ManualService
+    from pyatv.const import Protocol
+
+    conf = AppleTV(ipaddress.ip_address("127.0.0.1"), "verif accessory")
+    ports = {"mrp": 49152, "companion": 49153, "airplay": 7000}
+    protos = {"mrp": Protocol.MRP, "companion": Protocol.Companion, "airplay": Protocol.AirPlay}
+    for proto, creds in USER_CONFIGS[u.config]:
+        props = {}
+        if proto == "airplay" and creds:
+            props = {"model": "AppleTV6,2", "osvers": "14.5", "features": "0x0"}
+        conf.add_service(ManualService("verif-" + u.w.a_id.decode(), protos[proto], ports[proto], props,
+                                       credentials=u.w.credentials_string() if creds else None))
+    atv = None
+    try:
+        atv = await pyatv.connect(conf, loop)
+        u.connected = True
+    except Exception as ex:
+        u.exc = type(ex).__name__
+        u.exc_chain = _exc_chain(ex)
+    u.keys_snapshot = {p: u.keys_after(p) for p in u.cases}
+    if atv is not None:
+        try:
+            tasks = atv.close()
+            if tasks:
+                await asyncio.wait(tasks, timeout=30)
+        except Exception:
+            pass
 
 
 ATTEMPT = {"mrp": attempt_mrp, "companion": attempt_companion, "airplay": attempt_airplay}
@@ -1194,6 +1331,45 @@ class Bench:
                     super().enable(output_key, input_key)
 
         p.set(airplay_auth, "HAPSession", RecHAPSession)
+
+        if self.mode == "real":
+            # user-level path: pyatv.connect() builds its own connections; give them fake transports
+            from pyatv.protocols import mrp as mrp_pkg
+            from pyatv.protocols.airplay import ap2_session
+            from pyatv.protocols.companion import api as companion_api
+            from pyatv.support import http as http_mod
+
+            class UserMrpConnection(mrp_pkg.MrpConnection):
+                async def connect(self):
+                    u = bench.current
+                    u.conns["mrp"] = self
+                    self.connection_made(FakeTransport(mrp_accessory(u.cases["mrp"], self.loop, {"conn": self})))
+
+                def enable_encryption(self, output_key, input_key):
+                    bench.current.cases["mrp"].enabled(output_key, input_key)
+                    super().enable_encryption(output_key, input_key)
+
+            class UserCompanionConnection(companion_api.CompanionConnection):
+                async def connect(self):
+                    u = bench.current
+                    u.conns["companion"] = self
+                    self.connection_made(FakeTransport(companion_accessory(u.cases["companion"], self.loop, {"conn": self})))
+
+                def enable_encryption(self, output_key, input_key):
+                    bench.current.cases["companion"].enabled(output_key, input_key)
+                    super().enable_encryption(output_key, input_key)
+
+            async def user_http_connect(address, port):
+                u = bench.current
+                conn = http_mod.HttpConnection()
+                u.null_processors = (conn.send_processor, conn.receive_processor)
+                u.conns["airplay"] = conn
+                conn.connection_made(FakeTransport(airplay_accessory(u.cases["airplay"], bench.loop, {"conn": conn})))
+                return conn
+
+            p.set(mrp_pkg, "MrpConnection", UserMrpConnection)
+            p.set(companion_api, "CompanionConnection", UserCompanionConnection)
+            p.set(ap2_session, "http_connect", user_http_connect)
 
         if self.mode == "sym":
             class LogProxy:
@@ -1246,6 +1422,26 @@ class Bench:
                     pass
         case.obs.other_traffic = list(case.other_traffic)
         return case
+
+    def attempt_user(self, w, config, forged, variant):
+        u = UserCase(w, config, forged, variant)
+        self.current = u
+        loop = self.loop
+        try:
+            loop.run_until_complete(attempt_user(u, loop))
+        except Exception as ex:
+            u.exc = u.exc or ("HARNESS:" + type(ex).__name__)
+            u.keys_snapshot = {p: u.keys_after(p) for p in u.cases}
+        finally:
+            pending = [t for t in asyncio.all_tasks(loop) if not t.done()]
+            for t in pending:
+                t.cancel()
+            if pending:
+                try:
+                    loop.run_until_complete(asyncio.gather(*pending, return_exceptions=True))
+                except Exception:
+                    pass
+        return u
 
 
 # ----------------------------------------------------------------------------------------
@@ -1313,6 +1509,8 @@ STRUCTURAL = [
     {"enc_mut": {"trunc": 15}},
     {"pub_mut": {"trunc": 0}},
     {"pub_mut": {"trunc": 31}},
+    # X25519 ignores the top bit of the peer's u-coordinate (RFC 7748): same shared secret, other bytes
+    {"pub_mut": {"flip": 255}},
 ]
 
 REAL_ONLY = [
@@ -1574,9 +1772,88 @@ def run_real(ctx, only=None):
                 ctx.note("real:equivalent-encoding-accepted")
 
 
+USER_FLIPS = {"pub": 256, "enc": 960, "ident": 288, "sig": 512}
+
+
+def run_user(ctx, only=None):
+    """The direct oracle through the user's own entry point: real pyatv.connect() on multi-service
+    configurations, every protocol with a fake transport; one protocol's accessory presents a forged
+    pair-verify reply, the others are honest.
+
+    DECISION (from the property text and the pinned code): "any other reply ... makes connecting fail
+    with an authentication error and leaves the connection without encryption keys".  In the pinned
+    tree facade.connect()/pyatv.connect() propagate whatever a protocol's connect raises, so when ONE
+    protocol's accessory fails verification the user's connect() fails: with AuthenticationError for
+    MRP and Companion; for the AirPlay remote-control channel with the ProtocolError _connect_rc wraps
+    every failure in (class recorded, see the module docstring).  Required: pyatv.connect() raises
+    (AuthenticationError for MRP/Companion) and no keys are installed on the forged protocol's
+    connection.  With every accessory honest, connect() must return with keys on every protocol that
+    stores credentials (non-vacuity; the AirPlay tunnel's honest path would need a whole AirPlay 2
+    receiver and is exercised at protocol level only)."""
+    rng = ctx.rng.fork("user")
+    real = RealCrypto()
+    w = World(rng.fork("world"), real)
+    if only is not None:
+        todo = only
+    else:
+        todo = [(config, None, {}, w) for config in USER_HONEST]
+        variants = list(STRUCTURAL) + REAL_ONLY
+        for field, bits in USER_FLIPS.items():
+            for i in sorted(rng.sample(range(bits), ctx.scale(3, 12))):
+                variants += field_variants(field, {"flip": i})
+            for n in sorted(rng.sample(range(bits // 8), ctx.scale(2, 8))):
+                variants += field_variants(field, {"trunc": n})
+        for config, forged in USER_SLOTS:
+            for v in variants:
+                todo.append((config, forged, v, w))
+    with Bench("real") as bench:
+        for config, forged, v, world in todo:
+            u = bench.attempt_user(world, config, forged, v)
+            desc = {"mode": "user", "config": config, "forged": forged, "variant": v, "world": world.to_json()}
+            ctx.note(f"user:{config}:forged={forged}:" + ("connected" if u.exc is None else u.exc))
+            if forged is None:
+                ctx.case(["user", config, "honest"], False)
+                ok = u.exc is None and all(c.obs.enabled and c.obs.acc_decrypt is True
+                                           for c in u.cases.values() if c.has_credentials and c.transport != "airplay")
+                if not ok:
+                    ctx.disagree(desc, u.summary(), "pyatv.connect() returns, keys installed and usable on every protocol with credentials",
+                                 where="non-vacuity of the user-level campaign: honest accessories rejected")
+                else:
+                    ctx.note("user:honest-connected-with-working-keys")
+                continue
+            fc = u.cases[forged]
+            kind, pd = fc.sent_pd if fc.sent_pd else ("absent", b"")
+            ref = reference_accepts(world, kind, pd) if fc.sent_pd else None
+            what = "+".join(sorted(k + ("." + next(iter(x)) if isinstance(x, dict) else "=" + str(x)) for k, x in v.items())) or "genuine"
+            ctx.case(["user", config, forged, canon_variant(v)], ref is False,
+                     sample={"mode": "user", "config": config, "forged": forged, "variant": v, "observed": u.summary()})
+            if fc.sent_pd is None:
+                ctx.disagree(desc, u.summary(), "the forged protocol's pair-verify is reached",
+                             where="user-level campaign: pair-verify of the forged protocol never started")
+                continue
+            if ref:
+                continue  # not a forged reply after all (never generated on purpose)
+            keys = fc.obs.enabled or u.keys_snapshot.get(forged)
+            if u.exc is None:
+                ctx.fail(f"user-connect:{config}:{forged}:connect-succeeded-after-forged-reply:{what}", desc, u.summary(),
+                         "pyatv.connect() raises (AuthenticationError for MRP/Companion)",
+                         "pyatv.connect() returned a connected device although one protocol's accessory failed pair-verify")
+            elif keys:
+                ctx.fail(f"user-connect:{config}:{forged}:keys-installed-after-forged-reply", desc, u.summary(),
+                         "no encryption keys on the connection whose accessory failed pair-verify",
+                         "keys were installed on the forged protocol's connection")
+            elif forged != "airplay" and u.exc != "AuthenticationError":
+                ctx.fail(f"user-connect:{config}:{forged}:rejected-with-{u.exc}:{what}", desc, u.summary(),
+                         "pyatv.connect() raises pyatv.exceptions.AuthenticationError",
+                         f"pyatv.connect() failed with {u.exc} instead of an authentication error")
+            if forged == "airplay" and u.exc is not None:
+                ctx.note("user-airplay-exc:" + "<-".join(u.exc_chain))
+
+
 def run(ctx):
     run_symbolic(ctx)
     run_real(ctx)
+    run_user(ctx)
 
 
 def widen(ctx):
@@ -1587,6 +1864,9 @@ def replay(ctx, failure):
     case = failure["case"]
     mode = case["mode"]
     c2 = type(ctx)(ctx.prop, ctx.tier, ctx.seed, ctx.driver.driver_rel)
+    if mode == "user":
+        run_user(c2, only=[(case["config"], case["forged"], case["variant"], World.from_json(case["world"], RealCrypto()))])
+        return bool(c2.failures)
     crypto = RealCrypto() if mode == "real" else SymCrypto()
     w = World.from_json(case["world"], crypto)
     hist = None
